@@ -26,6 +26,8 @@ pub mod c14;
 pub mod c15;
 #[cfg(feature = "sched")]
 pub mod c16;
+#[cfg(feature = "sched")]
+pub mod c20s;
 
 pub fn run(id: &str, o: &Opts, stats: &mut Stats) -> Option<usize> {
     match id {
@@ -45,7 +47,11 @@ pub fn run(id: &str, o: &Opts, stats: &mut Stats) -> Option<usize> {
         "C17" => c17::run(o, stats),
         "C18" => c18::run(o, stats),
         "C19" => c19::run(o, stats),
+        #[cfg(not(feature = "sched"))]
         "C20" => c20::run(o, stats),
+        // the schedule-explorer build runs the concurrent part of C20
+        #[cfg(feature = "sched")]
+        "C20" => c20s::run(o, stats),
         #[cfg(feature = "sched")]
         "C14" => c14::run(o, stats),
         #[cfg(feature = "sched")]
